@@ -199,6 +199,20 @@ class C13(FrpProp):
                       p_sample=0.8, p_def_in_txn=0.25, listen_cells=0.6, n_txn=(4, 12))
 
 
+def audit_oracle(lines, out):
+    """the collector's contract, measured on the real heap after every collection: for programs whose cells hold
+    plain data (no `sel:` functions putting handles into values) every reachable node's reference count must equal
+    the handles held on it plus the edges the tracers report to it"""
+    if any("sel:" in l for l in lines):
+        return None
+    for k, o in enumerate(out):
+        a = anns(o).get("A")
+        if a is not None and a not in ("ok", "skipped"):
+            return ("line %d (%s): reference count not explained by handles + reported edges: %s (a counted reference no "
+                    "tracer reports, or a reported edge without a counted reference)" % (k + 1, lines[k] if k < len(lines) else "?", a))
+    return None
+
+
 def quiescence_oracle(lines, out):
     """after every script line that ends outside any transaction: nothing pending, no stream holds an event"""
     for k, o in enumerate(out):
@@ -248,8 +262,17 @@ class C18(FrpProp):
 
 class C06(FrpProp):
     pid = "C06"
-    category = "translation_validation"
     tag = "c06"
+    level_text = ("Theorems over the collector model (Model/Gc.v, tied bit-exactly to gc_node.rs by C08's correspondence), unbounded: "
+                  "through any contract-respecting interleaving of clones, drops, edge changes, transient upgrades and collections no "
+                  "object reachable from a held handle is ever freed, nothing is freed outside a collection, and no internal consistency "
+                  "panic or fuel exhaustion occurs. The hypothesis - the contract 'count = handles + reported edges' - is not proved for "
+                  "the FRP primitives but MEASURED on the real heap after every collection by the harness's audit (all reachable nodes, real "
+                  "tracers); observational transparency of clone/drop/gc is the specification correspondence. Rust ownership of Arc "
+                  "payloads is modelled, not verified.")
+
+    def extra_oracle(self, lines, out):
+        return audit_oracle(lines, out)
     profile = Profile(w=W(sloop=4, cloop=4, switch_s=4, switch_c=4, accum=6, collect=5, defer=2, router=2), p_mem=0.7,
                       n_txn=(5, 14), p_listen_late=0.3)
 
@@ -297,10 +320,18 @@ def everything_dropped(lines):
 
 class C07(FrpProp):
     pid = "C07"
-    category = "translation_validation"
     tag = "c07"
+    level_text = ("Theorems over the collector model, unbounded: once no handle is held ONE collection frees every object (cycles, "
+                  "self-loops, multi-edges, fired or not); after every collection exactly the reachable objects survive and the candidate "
+                  "buffer is empty. The hypothesis (contract) is measured on the real heap by the audit after every collection; the "
+                  "end-of-script teardown (drop every handle, unlisten, empty transaction, collect) must leave node_count = 0 on the real "
+                  "library. Leaks through references no tracer reports are exactly what these two detectors find (known findings K3, K5, "
+                  "K1 are classified by computable predicates).")
 
     def extra_oracle(self, lines, out):
+        a = audit_oracle(lines, out)
+        if a:
+            return a
         for k, (l, o) in enumerate(zip(lines, out)):
             if l.strip() == "nodes" and everything_dropped(lines[:k]):
                 n = anns(o).get("n")
